@@ -342,7 +342,7 @@ pub fn run(ctx: &Ctx, acc: &mut Acc) {
     let mut wd = Workdir::new(&format!("c20-{}", ctx.shard));
     let mut rng = Rng::new(ctx.case_seed(0));
     let mut round = 0;
-    while ctx.time_left() && (round < 1 || !ctx.quick()) {
+    while ctx.time_left() && (round < 1 || !ctx.quick() || ctx.start.elapsed() < ctx.budget / 3) {
         io_sanitized(acc, &mut wd, &mut rng, if ctx.quick() { 3 } else { 20 });
         native_args(acc, &mut wd, &mut rng, if ctx.quick() { 6 } else { 40 }, !ctx.quick());
         a64_entry(acc, &mut rng, if ctx.quick() { 10 } else { 100 });
